@@ -1029,6 +1029,40 @@ func ruleRefKey(c *Ctx) {
 				}
 				return true
 			})
+			// ... or tells presence from absence itself: the member is looked up in a map with the comma-ok form
+			// (in the decoder or a function it calls) - what happens for "" is then absence-is-nil's business
+			if !via {
+				um := c.method(pr.typ, "UnmarshalJSON")
+				bodies := []*ast.FuncDecl{u}
+				if um != nil {
+					for _, g := range c.staticCallees(um) {
+						if gfd := c.decl(g); gfd != nil && gfd.Body != nil {
+							bodies = append(bodies, gfd)
+						}
+					}
+				}
+				for _, b := range bodies {
+					ast.Inspect(b.Body, func(n ast.Node) bool {
+						as, ok := n.(*ast.AssignStmt)
+						if !ok || len(as.Lhs) != 2 || len(as.Rhs) != 1 {
+							return true
+						}
+						ix, ok := unparen(as.Rhs[0]).(*ast.IndexExpr)
+						if !ok {
+							return true
+						}
+						if _, isMap := c.typeOf(ix.X).Underlying().(*types.Map); !isMap {
+							return true
+						}
+						if k, isC := c.constString(ix.Index); isC && k == pr.key {
+							if okID, isId := as.Lhs[1].(*ast.Ident); isId && okID.Name != "_" {
+								via = true
+							}
+						}
+						return true
+					})
+				}
+			}
 			c.ob(rule, pr.typ+".UnmarshalJSON:via-fromMap", u.Pos(), via,
 				"the decoder does not use the presence-aware helper: an empty but present member (the root reference \"\") can no longer be told from an absent one")
 		}
